@@ -25,7 +25,8 @@ struct Cfg {
     outfile: bool,
     logfile: bool,
     /// 0 none, 1 positional, 2 --symbols-path, 3 --symbols-url (a loopback server that answers 404, the first
-    /// request after `delay_ms`)
+    /// request after `delay_ms`), 4 --symbols-path <empty directory> + the symbol directory positional,
+    /// 5 --symbols-path <symbol directory> + an empty directory positional
     symmode: u8,
     no_interactive: bool,
     delay_ms: u64,
@@ -33,7 +34,7 @@ struct Cfg {
 impl Cfg {
     fn json(&self) -> Value {
         json!({"mode": MODES[self.mode], "brief": self.brief, "pretty": self.pretty, "features": FEATURES[self.feat], "output_file": self.outfile, "log_file": self.logfile,
-               "symbols": (["none", "positional", "--symbols-path", "--symbols-url (404 server)"][self.symmode as usize]), "no_interactive": self.no_interactive, "first_answer_delayed_ms": self.delay_ms})
+               "symbols": (["none", "positional", "--symbols-path", "--symbols-url (404 server)", "--symbols-path EMPTY + positional", "--symbols-path + positional EMPTY"][self.symmode as usize]), "no_interactive": self.no_interactive, "first_answer_delayed_ms": self.delay_ms})
     }
     fn human(&self) -> bool {
         matches!(self.mode, 0 | 1 | 3)
@@ -350,9 +351,17 @@ fn run_cfg(sh: &Shared, ii: usize, cfg: &Cfg, l: &mut Local) {
         args.push("--log-file".into());
         args.push(lf.display().to_string());
     }
-    if cfg.symmode == 2 {
+    let empty_dir = tmp.path().join("no-symbols-here");
+    if cfg.symmode >= 4 {
+        std::fs::create_dir_all(&empty_dir).expect("empty dir");
+    }
+    if cfg.symmode == 2 || cfg.symmode == 5 {
         args.push("--symbols-path".into());
         args.push(SYMS.into());
+    }
+    if cfg.symmode == 4 {
+        args.push("--symbols-path".into());
+        args.push(empty_dir.display().to_string());
     }
     let server = if cfg.symmode == 3 { Some(start_404_server(cfg.delay_ms)) } else { None };
     if let Some(port) = server {
@@ -364,8 +373,11 @@ fn run_cfg(sh: &Shared, ii: usize, cfg: &Cfg, l: &mut Local) {
         args.push(tmp.path().display().to_string());
     }
     args.push(inp.path.display().to_string());
-    if cfg.symmode == 1 {
+    if cfg.symmode == 1 || cfg.symmode == 4 {
         args.push(SYMS.into());
+    }
+    if cfg.symmode == 5 {
+        args.push(empty_dir.display().to_string());
     }
     let out = std::process::Command::new(&sh.cli).args(&args).env("TMPDIR", tmp.path()).env_remove("RUST_LOG").output().expect("spawn minidump-stackwalk");
     l.eval();
@@ -497,7 +509,7 @@ fn main() {
         let mut def = CheckDef::new(
             "C20",
             "exploration",
-            "configuration enumeration on the freshly built binary: the COMPLETE option matrix {no mode, --human, --json, --cyborg P, --dump} x --brief x --pretty x --features {stable-basic, stable-all, unstable-all} x --output-file x --log-file x symbols {none, positional, --symbols-path} (720 configurations, --no-interactive alternating) on 2 inputs (quick) / all inputs (thorough), plus every input (corpus dumps, generated dumps, missing path, empty file, directory, garbage with a valid magic) under 8 spanning configurations, plus the clap-level conflicts, plus every mode with an unwritable primary / cyborg output (/dev/full: must fail with a diagnostic, never exit 0), plus every valid mode x brief x pretty x interactive or not x output file or not with --symbols-url pointing at a loopback server that answers 404 at once or only after 300 ms. Oracle: exit status, primary output (stdout or --output-file) == in-process library output for the same options, --cyborg file == JSON, stdout empty with --output-file, rejected combinations / unreadable inputs -> exit 1 + diagnostic + no output, never 101/134/signal; raw dump output contains the library printers in order and does not depend on unrelated options. distinct_nontrivial = distinct (input, mode, brief, pretty, features, symbols, exit status, output hash).",
+            "configuration enumeration on the freshly built binary: the COMPLETE option matrix {no mode, --human, --json, --cyborg P, --dump} x --brief x --pretty x --features {stable-basic, stable-all, unstable-all} x --output-file x --log-file x symbols {none, positional, --symbols-path} (720 configurations, --no-interactive alternating) on 2 inputs (quick) / all inputs (thorough), plus every input (corpus dumps, generated dumps, missing path, empty file, directory, garbage with a valid magic) under 8 spanning configurations, plus the clap-level conflicts, plus every mode with an unwritable primary / cyborg output (/dev/full: must fail with a diagnostic, never exit 0), plus every valid mode x brief x pretty x interactive or not x output file or not with --symbols-url pointing at a loopback server that answers 404 at once or only after 300 ms, plus both spellings of a symbol directory (--symbols-path and positional) in one command line. Oracle: exit status, primary output (stdout or --output-file) == in-process library output for the same options, --cyborg file == JSON, stdout empty with --output-file, rejected combinations / unreadable inputs -> exit 1 + diagnostic + no output, never 101/134/signal; raw dump output contains the library printers in order and does not depend on unrelated options. distinct_nontrivial = distinct (input, mode, brief, pretty, features, symbols, exit status, output hash).",
         );
         def.assumptions = vec![
             "expected reports are computed in-process by the same library code (release profile with overflow checks); C13 establishes that they are reproducible".into(),
@@ -538,6 +550,17 @@ fn main() {
                                     }
                                 }
                             }
+                        }
+                    }
+                }
+            }
+            // both spellings of a symbol directory in one command line (one of them names an empty directory)
+            for mode in 0..4 {
+                for symmode in [4u8, 5] {
+                    for (brief, pretty) in [(false, false), (true, false), (false, true)] {
+                        let c = Cfg { mode, brief, pretty, feat: 0, outfile: false, logfile: false, symmode, no_interactive: true, delay_ms: 0 };
+                        if !c.invalid() {
+                            sv.push(c);
                         }
                     }
                 }
